@@ -115,6 +115,9 @@ def traversals(fi, param, prog=None, selfname="self", _depth=0):
     return res
 
 
+_HIER = {}
+
+
 def check(prog, run):
     ncs = nodeshape.node_classes(prog)
     children = nodeshape.child_slots(prog)
@@ -205,13 +208,25 @@ def check(prog, run):
                         res = set(names) if res is None else (res & set(names))
                 cur = par
             return res
+        from .. import dispatch
+        hier18 = _HIER.get(id(prog)) or _HIER.setdefault(id(prog), dispatch.Hierarchy(prog))
         for cname in sorted(routes[h]):
             want = children.get(cname, [])
             got = []
+            # a traversal counts for class cname when its call is evaluated on some execution of the method for a node of
+            # exactly that class (path enumeration: elif chains, nested else/if and negated tests are all the same)
+            try:
+                reach = {id(c) for _k, _st, env in dispatch.executions(hier18, m, param, cname) for c in env.get(boolx.CALLS, ())}
+            except AnalysisError:
+                reach = None
             for slot, line, back, n in trs:
-                g = guarded_classes(n)
-                if g is not None and cname not in g:
-                    continue
+                if reach is not None:
+                    if id(n) not in reach:
+                        continue
+                else:
+                    g = guarded_classes(n)
+                    if g is not None and cname not in g:
+                        continue
                 got.append((slot, line, back, n))
             got_slots = [s for s, _, _, _ in got]
             for slot in want:
